@@ -110,6 +110,7 @@ def spellings(kinds, segs):
     P = [('P', s) for s in segs]
     if n and all('.' not in s for s in segs):
         out.append(('text', P))
+        out.append(('text-strsub', P))      # the same text as an instance of a str subclass (enum members, tagged strings)
     out.append(('path', P))
     pint = [('P', int(s) if INTLIKE.match(s) else s) for s in segs]
     if pint != P:
@@ -121,17 +122,28 @@ def spellings(kinds, segs):
             mixed = list(P)
             mixed[j] = nat[j]
             out.append(('mixed%d' % j, mixed))
+            if n > 1:
+                # the same steps, but the part up to and including the T step is a Path of its own that is joined with the rest
+                out.append(('joined%d' % j, mixed))
             op, arg = nat[j]
             if isinstance(arg, str) and arg.isidentifier():
                 unnat = list(P)
                 unnat[j] = ('.' if op == '[' else '[', arg)
                 out.append(('unnat%d' % j, unnat))
+                if n > 1:
+                    out.append(('joined-unnat%d' % j, unnat))
     return out
+
+
+class TaggedStr(str):
+    pass
 
 
 def mk_spec(name, steps):
     if name == 'text':
         return '.'.join(a for _, a in steps)
+    if name == 'text-strsub':
+        return TaggedStr('.'.join(a for _, a in steps))
     parts = []
     for op, arg in steps:
         if op == 'P':
@@ -145,6 +157,11 @@ def mk_spec(name, steps):
         for op, arg in steps:
             t = getattr(t, arg) if op == '.' else t[arg]
         return t
+    if name.startswith('joined'):
+        k = int(name[-1]) + 1
+        if k == len(parts):
+            return Path(Path(*parts[:1]), Path(*parts[1:]))
+        return Path(Path(*parts[:k]), *parts[k:])
     return Path(*parts)
 
 
